@@ -53,6 +53,25 @@ func init() {
 		}
 		return map[string]interface{}{"out": hx(msg)}
 	}
+	// kssearch: {alg, key, bearer, dir, want (hex), from, tries} -> {count} | {none:true}: the first COUNT >= from whose keystream
+	// begins with the octets `want` (a search aid only: finds inputs on which a ciphertext has a chosen prefix; no verdict is
+	// drawn from it)
+	lineCmds["kssearch"] = func(in map[string]interface{}) map[string]interface{} {
+		key := neaKey(in)
+		want := unhex(in, "want")
+		from, tries := uint32(num(in, "from")), int(num(in, "tries"))
+		for i := 0; i < tries; i++ {
+			msg := make([]byte, len(want))
+			c := from + uint32(i)
+			if err := security.NASEncrypt(uint8(num(in, "alg")), key, c, uint8(num(in, "bearer")), uint8(num(in, "dir")), msg); err != nil {
+				return map[string]interface{}{"err": err.Error()}
+			}
+			if hx(msg) == hx(want) {
+				return map[string]interface{}{"count": float64(c)}
+			}
+		}
+		return map[string]interface{}{"none": true}
+	}
 	lineCmds["nia"] = func(in map[string]interface{}) map[string]interface{} {
 		key := neaKey(in)
 		msg := neaMsg(in)
